@@ -76,7 +76,7 @@ def run(r):
     ]
     r.assumptions += [
         "C17_framing_roundtrip: every written line is newline-free, not blank, does not end in white space, the first line of a trimmed section does not start with white space (sections_wf) and every written line contains a character other than A-Z and blank (written_shape); both are checked on the real to_uasm output of every generated assembly by the tie",
-        "C17_value_json_roundtrip: values satisfy length(data) = product(shape), strings are not one of the reserved spellings NaN/W/empty/tomb/inf/-inf, complex parts are finite (plain_json); labels and map keys only at the top level",
+        "C17_value_json_roundtrip: values satisfy length(data) = product(shape) (wf_shape, C05), bytes are <= 255, a character list is not one of the reserved spellings NaN/W/empty/tomb/inf/-inf, complex parts are finite (plain_json); the theorem is about values without label / map keys (those are modelled at the top level and tied, not proved)",
         "run behaviour of the re-read assembly is compared on finitely many run-time arguments per program (search), not proved for all arguments",
     ]
     if not r.harness(["c17"]):
